@@ -134,6 +134,90 @@ def run(ctx):
         ctx.inst("R04.11", "realised-pnl:%s" % ckey, bad11 is None and n11 > 0, st11.fn.where(),
                  bad11 or "%d settlements: tmp.unrealized_pnl * |output| / |position.size|" % n11)
 
+    # ---- R04.12: the open notional a reduced position keeps (what the NEXT close measures its pnl against):
+    #   long : position_notional - open_notional - (unrealized_pnl - realised)
+    #   short: position_notional - open_notional + (unrealized_pnl - realised)
+    # compared as a signed linear combination of its four leaves (operand order and grouping are free), `realised` being
+    # the figure R04.11 decides.  (Blind sweep: four sign flips in these two formulas were reported by nothing.)
+    ctx.rule("R04.12", "a reduce / partial close stores notional = |position_notional - open_notional -/+ (unrealized_pnl - realised)| (minus for a long, plus for a short)", 2)
+
+    def _lin(n, sign, acc):
+        if isinstance(n, tuple) and n and n[0] in ("iadd", "add") and len(n) == 3:
+            _lin(n[1], sign, acc)
+            _lin(n[2], sign, acc)
+        elif isinstance(n, tuple) and n and n[0] in ("isub", "sub") and len(n) == 3:
+            _lin(n[1], sign, acc)
+            _lin(n[2], -sign, acc)
+        elif isinstance(n, tuple) and n and n[0] == "pos" and len(n) == 2:
+            _lin(n[1], sign, acc)
+        elif isinstance(n, tuple) and n and n[0] in ("neg", "inv") and len(n) == 2:
+            _lin(n[1], -sign, acc)
+        elif n == ("int", 0):
+            pass
+        else:
+            acc[n] = acc.get(n, 0) + sign
+        return acc
+
+    for ckey in ("ClosePosition>id5", "OpenPosition>id2"):
+        st12 = em.reply_step(ckey)
+        if st12 is None:
+            ctx.lost("R04.12", ckey)
+            continue
+        bad12 = None
+        n12 = 0
+        for q in st12.ok_paths():
+            sps = em.stored_position(st12, q)
+            if not sps:
+                continue
+            nn = N(ix, st12.c(sym.field(sps[-1], "notional")))
+            if not (isinstance(nn, tuple) and nn and nn[0] in ("mag", "abs") and len(nn) == 2):
+                bad12 = bad12 or "the reduced position's notional is %s" % norm.show(nn)[:200]
+                continue
+            terms = {k_: c_ for k_, c_ in _lin(nn[1], 1, {}).items() if c_}
+            # classify the leaves
+            got = {}
+            other = None
+            for k_, c_ in terms.items():
+                if match(em.tmp_leaf("position_notional"), k_) is not None:
+                    got["position_notional"] = c_
+                elif match(em.tmp_leaf("open_notional"), k_) is not None:
+                    got["open_notional"] = c_
+                elif match(em.tmp_leaf("unrealized_pnl"), k_) is not None:
+                    got["unrealized_pnl"] = c_
+                elif match(("idiv", ("imul", em.tmp_leaf("unrealized_pnl"), ("abs", anyhole("x"))), ("abs", em.pos_field_leaf("size"))), k_) is not None:
+                    got["realised"] = c_
+                else:
+                    other = k_
+            if other is not None:
+                bad12 = bad12 or "the reduced position's notional has an unexpected term %s" % norm.show(other)[:160]
+                continue
+            # which side: the path's test of the position's size against zero
+            long_side = None
+            for (k2, x2, o2) in sign_tests(ix, [(ix.inline(st12.c(c[0])), c[1]) for c in q.conds]):
+                if em.is_position_value(kids(ix.inline(x2))[0]) if tag(ix.inline(x2)) == "field" and payload(ix.inline(x2))[0] == "size" else False:
+                    if k2 == "is_negative" and o2 is True:
+                        long_side = False
+                    if k2 == "is_negative" and o2 is False and long_side is None:
+                        long_side = True
+            for (at, o, _b, _l) in q.conds:
+                ai = ix.inline(st12.c(at))
+                if tag(ai) == "op" and payload(ai)[0] == "gt" and o in (True, False) and len(kids(ai)) == 2:
+                    l_ = ix.inline(kids(ai)[0])
+                    if tag(l_) == "field" and payload(l_)[0] == "size" and em.is_position_value(kids(l_)[0]):
+                        long_side = bool(o)
+            if long_side is None:
+                bad12 = bad12 or "no test of the position's side on a reducing path"
+                continue
+            want = {"position_notional": 1, "open_notional": -1, "unrealized_pnl": -1 if long_side else 1}
+            if "realised" in got:
+                want["realised"] = 1 if long_side else -1
+            if got != want:
+                bad12 = bad12 or "%s side stores notional with signs %s, expected %s" % ("long" if long_side else "short", sorted(got.items()), sorted(want.items()))
+                continue
+            n12 += 1
+        ctx.inst("R04.12", "kept-notional:%s" % ckey, bad12 is None and n12 > 0, st12.fn.where(),
+                 bad12 or "%d reducing stores: |position_notional - open_notional -/+ (unrealized_pnl - realised)|" % n12)
+
     ctx.rule("R04.10", "every settlement (remain-margin computation) of a chain step is made on the stored record: its own margin, funding checkpoint and size - not a copy already netted of funding or clamped (the bad-debt test would not see what exceeds the margin)", 6)
     settled_on_stored_record_instances(ctx, em, "R04.10")
     from .balance import balance_instances
